@@ -469,7 +469,8 @@ func (f *Frame) execMakeSlice(cur *blockCur, x *ssa.MakeSlice) {
 	ln := c.toIdx(f.val(x.Len))
 	cp := c.toIdx(f.val(x.Cap))
 	zero := c.so.idxLit(0)
-	f.safety("makeslice", cur, and(c.iLe(zero, ln), c.iLe(ln, cp), c.iLt(cp, c.so.idxLit(1<<47))), x, "")
+	// element count below 2^52 (with the in-memory size assumption this holds for len(x)*k, k <= 32)
+	f.safety("makeslice", cur, and(c.iLe(zero, ln), c.iLe(ln, cp), c.iLt(cp, c.so.idxLit(1<<52))), x, "")
 	if b := f.rootOption("alloc-bound"); b != "" {
 		var n int64
 		fmt.Sscanf(b, "%d", &n)
